@@ -366,7 +366,15 @@ impl<'a, S: Service> Case<'a, S> {
             Op::Hs(slot) => match self.subs[*slot].as_ref() {
                 None => Exec::NotApplicable,
                 Some(h) => match h.port.has_samples() {
-                    Ok(b) => Exec::Done(format!("O hs {} = b{}", h.id, if b { 1 } else { 0 })),
+                    Ok(b) => {
+                        if std::env::var("VERIF_C01_DEBUG").is_ok() {
+                            let pid = std::process::id();
+                            for d in ["/dev/shm".to_string(), format!("/dev/shm/verif-c01-{}", pid)] {
+                                if let Ok(rd) = std::fs::read_dir(&d) { for e in rd.flatten() { let n = e.file_name().to_string_lossy().to_string(); if n.contains(&format!("c01_{}_", pid)) { eprintln!("FILE {}/{}", d, n); } } }
+                            }
+                        }
+                        Exec::Done(format!("O hs {} = b{}", h.id, if b { 1 } else { 0 }))
+                    }
                     Err(e) => Exec::Done(format!("O hs {} = err:{:?}", h.id, e)),
                 },
             },
@@ -405,6 +413,36 @@ impl<'a, S: Service> Case<'a, S> {
                 }
             },
         }
+    }
+
+    /// the operation as it is printed (ids resolved), None when it is not applicable now
+    fn describe(&self, op: &Op) -> Option<String> {
+        let sh = |o: &Option<usize>| o.map(|v| v.to_string()).unwrap_or("-".into());
+        let pid = |s: &usize| self.pubs[*s].as_ref().map(|h| h.id);
+        let sid = |s: &usize| self.subs[*s].as_ref().map(|h| h.id);
+        let lid = |s: &usize, k: &usize| self.kth_loan(*s, *k).map(|i| self.loans[i].id);
+        Some(match op {
+            Op::Pc(slot, l, r, sc) => { if self.pubs[*slot].is_some() { return None; } format!("pc {} {} {}", l, if *r { 1 } else { 0 }, sc) }
+            Op::Sc(slot, b, h) => { if self.subs[*slot].is_some() { return None; } format!("sc {} {}", sh(b), sh(h)) }
+            Op::Pd(s) => format!("pd {}", pid(s)?),
+            Op::Sd(s) => format!("sd {}", sid(s)?),
+            Op::Ln(s) => format!("ln {}", pid(s)?),
+            Op::Sn(s) => format!("sn {}", pid(s)?),
+            Op::Pu(s) => format!("pu {}", pid(s)?),
+            Op::Ex(s) => format!("ex {}", pid(s)?),
+            Op::Rx(s) => format!("rx {}", sid(s)?),
+            Op::Hs(s) => format!("hs {}", sid(s)?),
+            Op::Su(s) => format!("su {}", sid(s)?),
+            Op::Wr(s, k) => format!("wr {}", lid(s, k)?),
+            Op::Snd(s, k) => format!("snd {}", lid(s, k)?),
+            Op::Ld(s, k) => format!("ld {}", lid(s, k)?),
+            Op::Rd(s, k) => format!("rd {}", self.kth_sample(*s, *k).map(|i| self.samples[i].id)?),
+            Op::RdNewest(s) => {
+                let n = self.samples.iter().filter(|x| x.sslot == *s).count();
+                if n < 2 { return None; }
+                format!("rd {}", self.kth_sample(*s, n - 1).map(|i| self.samples[i].id)?)
+            }
+        })
     }
 
     fn view(&self) -> View {
@@ -471,6 +509,7 @@ fn run_case<S: Service>(node: &Node<S>, variant: &str, cfg: &Cfg, case_name: &st
                     }
                 }
             };
+            let desc = case.describe(&op);
             let r = catch_unwind(AssertUnwindSafe(|| case.exec(&op)));
             match r {
                 Ok(Exec::Done(text)) => {
@@ -483,7 +522,7 @@ fn run_case<S: Service>(node: &Node<S>, variant: &str, cfg: &Cfg, case_name: &st
                 }
                 Ok(Exec::NotApplicable) => { end = RunEnd::InvalidAt(k); break; }
                 Err(_) => {
-                    lines.push(format!("O {} = P", op_text_fallback(&op)));
+                    lines.push(format!("O {} = P", desc.unwrap_or_else(|| "?".into())));
                     end = RunEnd::Panicked;
                     break;
                 }
@@ -503,18 +542,6 @@ fn run_case<S: Service>(node: &Node<S>, variant: &str, cfg: &Cfg, case_name: &st
         for l in &lines { out.line(l); }
     }
     end
-}
-
-fn op_text_fallback(op: &Op) -> String {
-    match op {
-        Op::Pc(_, l, r, s) => format!("pc {} {} {}", l, if *r { 1 } else { 0 }, s),
-        Op::Pd(s) => format!("pd ?{}", s), Op::Sd(s) => format!("sd ?{}", s),
-        Op::Sc(_, b, h) => format!("sc {} {}", b.map(|v| v.to_string()).unwrap_or("-".into()), h.map(|v| v.to_string()).unwrap_or("-".into())),
-        Op::Ln(s) => format!("ln ?{}", s), Op::Wr(s, k) => format!("wr ?{}.{}", s, k), Op::Snd(s, k) => format!("snd ?{}.{}", s, k),
-        Op::Ld(s, k) => format!("ld ?{}.{}", s, k), Op::Sn(s) => format!("sn ?{}", s), Op::Rx(s) => format!("rx ?{}", s),
-        Op::Rd(s, k) => format!("rd ?{}.{}", s, k), Op::RdNewest(s) => format!("rd ?{}.new", s), Op::Hs(s) => format!("hs ?{}", s),
-        Op::Pu(s) => format!("pu ?{}", s), Op::Su(s) => format!("su ?{}", s), Op::Ex(s) => format!("ex ?{}", s),
-    }
 }
 
 /// `hist` mode: ops as the harness prints them (ids!), translated to slots: the id of a port is
